@@ -64,8 +64,10 @@ func edgesMatchingD(b *ana.Builder, patterns []string, depth int) []ana.CondEdge
 				sub = plainEdges(edgesMatchingD(hb, patterns, depth+1))
 			}
 			for _, x := range xs {
-				if !all || !mustPass(hb.Fn, x.Instr.Block(), sub) {
+				if all && !mustPass(hb.Fn, x.Instr.Block(), sub) && !tailEstablishes(hb, x, o, patterns) {
 					all = false
+				}
+				if !all {
 					break
 				}
 			}
@@ -76,6 +78,29 @@ func edgesMatchingD(b *ana.Builder, patterns []string, depth int) []ana.CondEdge
 		}
 	}
 	return out
+}
+
+// tailEstablishes: the exit hands on the result r of another call (`return validate(x)`); having the outcome
+// "nil" / "true" then *is* the fact r == nil / r, which may be what the patterns ask for.
+func tailEstablishes(hb *ana.Builder, x ana.Exit, o outcome, patterns []string) bool {
+	if o.result >= len(x.Results) {
+		return false
+	}
+	rt := hb.Of(x.Results[o.result], x.Instr)
+	var lit *ana.Term
+	switch o.kind {
+	case "nil":
+		lit = &ana.Term{Op: "bin", Name: "==", Args: []*ana.Term{rt, {Op: "nil"}}}
+	case "nonnil":
+		lit = &ana.Term{Op: "bin", Name: "!=", Args: []*ana.Term{rt, {Op: "nil"}}}
+	case "true":
+		lit = rt
+	case "false":
+		lit = ana.Negate(rt)
+	default:
+		return false
+	}
+	return stripObj(rt).Op == "call" && ana.LitMatches(lit, patterns...)
 }
 
 func boundBuilderP(p *ana.Prog, call *ana.Term) *ana.Builder {
@@ -786,7 +811,7 @@ func (c *Ctx) passesD(b *ana.Builder, blk *ssa.BasicBlock, patterns []string, de
 			xs := exitsWith(hb, o)
 			all := len(xs) > 0
 			for _, x := range xs {
-				if !c.passesD(hb, x.Instr.Block(), patterns, depth+1) {
+				if !c.passesD(hb, x.Instr.Block(), patterns, depth+1) && !tailEstablishes(hb, x, o, patterns) {
 					all = false
 				}
 			}
@@ -1103,6 +1128,8 @@ func deepCallTerms(c *Ctx, b *ana.Builder) []*ana.Term {
 // accepts with its parameters bound to the arguments, and which returns a
 // negative value only after completing that loop — reported "none found"
 // (H(x) < 0, H(x) == -1).
+var scanDepth int
+
 func scanGates(c *Ctx, b *ana.Builder, loopOK func(b2 *ana.Builder, l *rangeLoop) bool) []ana.Edge {
 	var out []ana.Edge
 	loops := rangeLoopsAll(b)
@@ -1112,6 +1139,23 @@ func scanGates(c *Ctx, b *ana.Builder, loopOK func(b2 *ana.Builder, l *rangeLoop
 		}
 	}
 	for _, ce := range b.CondEdges() {
+		// a validator (error / bool result) all of whose successful exits passed such a gate inside it
+		if o, isH := helperOutcome(ce.Lit); isH && (o.kind == "nil" || o.kind == "true") && scanDepth < 2 {
+			hb := boundBuilderP(c.P, o.call)
+			xs := exitsWith(hb, o)
+			scanDepth++
+			sub := scanGates(c, hb, loopOK)
+			scanDepth--
+			all := len(xs) > 0 && len(sub) > 0
+			for _, x := range xs {
+				all = all && mustPass(hb.Fn, x.Instr.Block(), sub)
+			}
+			if all {
+				c.R.Fn(ana.ShortFunc(hb.Fn))
+				out = append(out, ce.Edge)
+				continue
+			}
+		}
 		bd, ok := ana.MatchAny(ce.Lit, "raw:bin<<>($h, 0)", "raw:bin<==>($h, -1)")
 		if !ok {
 			continue
